@@ -50,6 +50,7 @@ type monState struct {
 	startAt    map[string]time.Duration
 	defChanged map[string]int // pipeline -> step of the last content change of its definition (0: never)
 	lastReload int            // step of the last reload that changed any definition
+	sdActive, sdQuiet, sdForced map[uint64]bool // C11 r8, per Shutdown call (goroutine id)
 	cancels    []cancelAck
 	removed    map[string]int // job -> step of the save that removed it
 	firstFail  map[string]int // job -> step of first non-allowed failure
@@ -280,6 +281,48 @@ func (m *monState) onStep(si *StepInfo, pre, post *Snap, evs []Event) {
 	}
 	m.checkPendingLogRemovals(si, false)
 	m.checkSavedDataStable(si)
+	// C11 r8: a Shutdown call that leaves its poll loop without having been forced has seen "no pipeline is running",
+	// so at some instant since it began no job was running (per call, keyed by the goroutine).
+	if m.sdActive == nil {
+		m.sdActive, m.sdQuiet, m.sdForced = map[uint64]bool{}, map[uint64]bool{}, map[uint64]bool{}
+	}
+	if si.Point == "Shutdown.begin" && si.Gid != 0 {
+		m.sdActive[si.Gid], m.sdQuiet[si.Gid], m.sdForced[si.Gid] = true, false, false
+	}
+	if len(m.sdActive) > 0 {
+		quiet := func(s *Snap) bool {
+			if s == nil {
+				return true
+			}
+			for _, j := range s.Jobs {
+				if j.Running() {
+					return false
+				}
+			}
+			return true
+		}
+		if quiet(pre) || quiet(post) {
+			for g := range m.sdActive {
+				m.sdQuiet[g] = true
+			}
+		}
+		if si.Point == "Shutdown.force" {
+			m.sdForced[si.Gid] = true
+		}
+		if si.Point == "Shutdown.wait" && m.sdActive[si.Gid] {
+			if !m.sdForced[si.Gid] && !m.sdQuiet[si.Gid] {
+				still := ""
+				for _, n := range pre.sortedNames() {
+					if pre.Jobs[n].Running() {
+						still = n
+						break
+					}
+				}
+				run.violate("C11", "r8", "step %d: Shutdown left its poll loop without being forced although a job was running at every instant since it began (job %s still is): it stopped watching running jobs, so a deadline can no longer cancel them", si.N, still)
+			}
+			delete(m.sdActive, si.Gid)
+		}
+	}
 	if si.Point == "Shutdown.begin" {
 		m.shutdownJobsRunningAtBegin = map[string]bool{}
 		for n, j := range pre.Jobs {
